@@ -111,7 +111,10 @@ func c13Reply(p *chk.Prog, r *chk.Report) {
 				_, isTA := ast.Unparen(rhs).(*ast.TypeAssertExpr)
 				return rhs != nil && idx == 1 && isTA
 			})), "", "messages that are not neighbor solicitations can be answered")
-			x.Check("ndp:reply:source-link-layer", s.Pos(), g.Dominated(s, g.GPat(false, "LL == nil")), "", "a solicitation without a source link-layer address option can be answered")
+			x.Check("ndp:reply:source-link-layer", s.Pos(), g.Dominated(s, g.GPat(false, "LL == nil", chk.H("LL", func(e ast.Expr) bool {
+				t := n.Info().TypeOf(e)
+				return t != nil && t.String() == "net.HardwareAddr"
+			}))), "", "a solicitation without a source link-layer address option can be answered")
 			x.Check("ndp:reply:announcer-verdict", s.Pos(), g.Dominated(s, g.GPat(false, "V != dropReasonNone", chk.H("V", verdict))), "", "a solicitation can be answered although the announcer did not say dropReasonNone for that address on this interface")
 			x.Check("ndp:reply:to-the-solicitor", s.Pos(), definedBy(g, "RECV.conn.ReadFrom()")(call.Args[0]), "", "the advertisement is not sent to the solicitor")
 		}
